@@ -7,7 +7,7 @@ use std::any::Any;
 use std::cell::RefCell;
 use std::collections::{BTreeMap, BTreeSet};
 use std::panic::{catch_unwind, AssertUnwindSafe};
-use std::sync::atomic::{AtomicUsize, Ordering};
+use std::sync::atomic::{AtomicU64, AtomicUsize, Ordering};
 use std::sync::Mutex;
 use std::time::Instant;
 
@@ -223,6 +223,8 @@ pub struct RunResult {
 }
 
 pub const RUN_STACK: usize = 8 * 1024 * 1024;
+/// wall-clock backstop per run (seconds); runs normally take milliseconds
+pub const WATCHDOG_SECS: u64 = 300;
 
 pub fn exec_run(scn: &dyn Scenario, tape: Tape, tier: Tier, render: bool) -> RunResult {
     if !scn.fresh_thread() {
@@ -688,6 +690,25 @@ pub fn write_replay(property: &str, scn: &dyn Scenario, verif_seed: u64, run: u6
     path
 }
 
+/// replay file for a run that did not finish: it is identified by its seed, not by a recorded tape
+pub fn write_seed_replay(property: &str, scn: &dyn Scenario, verif_seed: u64, run: u64, tier: Tier, v: &Violation) -> String {
+    let dir = format!("{}/replays", verif_root());
+    let _ = std::fs::create_dir_all(&dir);
+    let path = format!("{dir}/{property}-{}-s{verif_seed}-r{run}-hang.json", scn.name());
+    let doc = json!({
+        "property": property,
+        "scenario": scn.name(),
+        "verif_seed": verif_seed,
+        "run": run,
+        "tier": tier.name(),
+        "violation": { "oracle": v.oracle, "class": v.class, "detail": v.detail, "triggers": v.triggers },
+        "replay_from_seed": run_seed(verif_seed, property, scn.name(), run),
+        "rendered": ["the run did not finish; replay re-executes it from its seed under the same watchdog"],
+    });
+    std::fs::write(&path, serde_json::to_string_pretty(&doc).unwrap()).expect("write replay file");
+    path
+}
+
 pub fn run_check(spec: &CheckSpec, tier: Tier) -> i32 {
     let started = Instant::now();
     let verif_seed = env_u64("VERIF_SEED", 1);
@@ -732,9 +753,40 @@ pub fn run_check(spec: &CheckSpec, tier: Tier) -> i32 {
     let total = Mutex::new(Agg::default());
     let audit_every = if total_runs > 200_000 { 997 } else { 50 };
 
+    // wall-clock watchdog: a backstop for loops that pass no fuel tick (e.g. in the writer). It never decides
+    // anything about a run that finishes; a run that is still executing after WATCHDOG_SECS is reported and ends the check.
+    let slots: Vec<(AtomicU64, AtomicU64)> = (0..workers).map(|_| (AtomicU64::new(0), AtomicU64::new(u64::MAX))).collect();
+    let finished = std::sync::atomic::AtomicBool::new(false);
+    let watchdog_secs = env_u64("VERIF_WATCHDOG_SECS", WATCHDOG_SECS);
     std::thread::scope(|s| {
-        for _ in 0..workers {
-            s.spawn(|| {
+        s.spawn(|| {
+            while !finished.load(Ordering::Relaxed) {
+                std::thread::sleep(std::time::Duration::from_millis(500));
+                let now = started.elapsed().as_secs();
+                for (start, id) in &slots {
+                    let idv = id.load(Ordering::Relaxed);
+                    let st = start.load(Ordering::Relaxed);
+                    if idv != u64::MAX && now.saturating_sub(st) > watchdog_secs {
+                        let si = (idv >> 48) as usize;
+                        let ri = idv & 0xffff_ffff_ffff;
+                        let scn = spec.plans[si].scenario.as_ref();
+                        let v = Violation { oracle: "termination".into(), class: "hang:wall-clock-watchdog".into(), detail: format!("the run was still executing after {watchdog_secs} s (a loop without fuel tick, or an extreme slow-down)"), triggers: BTreeSet::new() };
+                        let path = write_seed_replay(spec.property, scn, verif_seed, ri, tier, &v);
+                        println!("violation: scenario={} run={ri} oracle={} class={}\n  {}", scn.name(), v.oracle, v.class, v.detail);
+                        println!("VIOLATION property={} replay={}", spec.property, path);
+                        std::process::exit(1);
+                    }
+                }
+            }
+        });
+        let mut handles = Vec::new();
+        for wi in 0..workers {
+            let slots = &slots;
+            let next = &next;
+            let work = &work;
+            let known = &known;
+            let total = &total;
+            handles.push(s.spawn(move || {
                 let mut agg = Agg::default();
                 loop {
                     let w = next.fetch_add(1, Ordering::Relaxed);
@@ -745,14 +797,21 @@ pub fn run_check(spec: &CheckSpec, tier: Tier) -> i32 {
                     let scn = spec.plans[si].scenario.as_ref();
                     for ri in first..first + cnt {
                         let seed = run_seed(verif_seed, spec.property, scn.name(), ri);
+                        slots[wi].0.store(started.elapsed().as_secs(), Ordering::Relaxed);
+                        slots[wi].1.store(((si as u64) << 48) | ri, Ordering::Relaxed);
                         let r = exec_run(scn, Tape::from_seed(seed), tier, false);
+                        slots[wi].1.store(u64::MAX, Ordering::Relaxed);
                         let audit = mix(seed, 99) % audit_every == 0;
-                        agg.add(si, ri, r, audit, &known, spec.property);
+                        agg.add(si, ri, r, audit, known, spec.property);
                     }
                 }
                 total.lock().unwrap().merge(agg);
-            });
+            }));
         }
+        for h in handles {
+            let _ = h.join();
+        }
+        finished.store(true, Ordering::Relaxed);
     });
     let mut agg = total.into_inner().unwrap();
     let search_wall = started.elapsed().as_secs_f64();
@@ -979,6 +1038,36 @@ pub fn replay_file(path: &str, all: &[CheckSpec]) -> i32 {
         eprintln!("HARNESS ERROR: unknown property/scenario {property}/{scenario}");
         return 2;
     };
+    if let Some(seed) = v.get("replay_from_seed").and_then(Value::as_u64) {
+        // a run that hung: execute it from its seed in a helper thread and wait for the watchdog time
+        let limit = env_u64("VERIF_WATCHDOG_SECS", WATCHDOG_SECS);
+        let (tx, rx) = std::sync::mpsc::channel();
+        let scn_name = scenario.to_string();
+        let prop = property.to_string();
+        std::thread::spawn(move || {
+            let all = crate::all_checks();
+            if let Some(plan) = all.iter().filter(|c| c.property == prop).flat_map(|c| c.plans.iter()).find(|p| p.scenario.name() == scn_name) {
+                let r = exec_run(plan.scenario.as_ref(), Tape::from_seed(seed), tier, false);
+                let _ = tx.send(r.violation.map(|v| v.key()));
+            }
+        });
+        return match rx.recv_timeout(std::time::Duration::from_secs(limit)) {
+            Err(_) => {
+                println!("reproduced: the run is still executing after {limit} s");
+                println!("VIOLATION property={property} replay={path}");
+                1
+            }
+            Ok(Some(k)) => {
+                println!("different violation: {k} (recorded: {want})");
+                println!("VIOLATION property={property} replay={path}");
+                1
+            }
+            Ok(None) => {
+                println!("not reproduced: the run finishes without violation now");
+                0
+            }
+        };
+    }
     let r = exec_run(plan.scenario.as_ref(), Tape::from_replay(tape), tier, true);
     for l in &r.log {
         println!("{l}");
